@@ -282,7 +282,7 @@ def build_workspace(root, crates, timeout=3600, keep_going=True):
     p.stdout = "\n".join(stdout)
     p.stderr = "\n".join(stderr)
     p.returncode = max(rcs) if rcs else 0
-    for line in p.stdout.splitlines():
+    for line in p.stdout.split("\n"):
         try:
             m = json.loads(line)
         except ValueError:
@@ -309,7 +309,7 @@ def run_crate(exe, timeout=600):
     p = subprocess.run([exe], stdout=subprocess.PIPE, stderr=subprocess.PIPE, timeout=timeout)
     obs = {}
     done = False
-    for line in p.stdout.decode("utf-8", "replace").splitlines():
+    for line in p.stdout.decode("utf-8", "replace").split("\n"):
         try:
             d = json.loads(line)
         except ValueError:
